@@ -271,7 +271,7 @@ def run(ctx) -> None:
     nb = len(c14.binding_lists(2))
     njobs = [("N", api, cls, pi, lo, hi) for api in ("generic", "rdflib") for cls in DR.CLASSES
              for pi in range(len(c14.PRESETS)) for lo, hi in pool.split_range(nb, 2)]
-    mjobs = [("M", name, 1200 if ctx.quick else 150000) for name in MANUAL_SCOPES]
+    mjobs = [("M", name, 1200 if ctx.quick else 20000) for name in MANUAL_SCOPES]
     merged = pool.merge(pool.pmap(shard, mjobs + jobs + rjobs + njobs))
     ctx.add(merged)
     searches = sorted((e for e in merged["extras"] if "manual" in e), key=lambda e: e["manual"])
